@@ -8,6 +8,7 @@ CONSTANTS
   Thr = 2
   InitBal = 6
   PersistUnderLock = FALSE
+  RefreshReadsUnderLock = TRUE
   Amounts <- MCAmounts
   MaxOps = 4
 INVARIANTS TypeOK AckDurable
